@@ -1,6 +1,7 @@
 from typing import Dict, List
 
 from excel2pycl.src.cell import Cell
+from excel2pycl.src.exceptions import E2PyclParserException
 
 
 class Context:
@@ -967,6 +968,11 @@ class ExcelInPython:
 
     def set_sub_cell(self, cell: Cell, code: str) -> str:
         # TODO check if sub expression exists
+        try:
+            compile(code, '<cell>', 'eval')
+        except (SyntaxError, MemoryError):
+            # the expression is nested more deeply than Python compiles (a chain of hundreds of comparisons inside a call)
+            raise E2PyclParserException(f'The formula of the cell {cell} is nested too deeply to be translated')
         cell_function_name = self._get_cell_function_name(cell)
         if not self._sub_cell_translations.get(cell_function_name):
             self._sub_cell_translations[self._get_cell_function_name(cell)] = []
